@@ -75,6 +75,16 @@ Proof.
     apply Forall_app. split; [exact Hls0|]. constructor; [reflexivity|constructor].
 Qed.
 
+(* a block whose last line is the lone CR of a CRLF blank line (what the request side accepts since f7a0f16) *)
+Lemma block_lines_lf q : exists ls, q ++ [LF; CR; LF] = join ls /\ tail_inv ls.
+Proof.
+  destruct (lines_of (q ++ [LF])) as (ls0 & E & Hls0); [right; eauto|].
+  exists (ls0 ++ [[CR]]). split.
+  - rewrite join_app, <- E. unfold join. cbn. rewrite <- app_assoc. reflexivity.
+  - split; [destruct ls0; discriminate|]. split; [apply last_last|].
+    apply Forall_app. split; [exact Hls0|]. constructor; [reflexivity|constructor].
+Qed.
+
 (* ---------- positions ---------- *)
 Lemma skipn_at {A} (P X : list A) : skipn (length P) (P ++ X) = X.
 Proof. rewrite skipn_app, Nat.sub_diag, skipn_all. reflexivity. Qed.
